@@ -172,9 +172,14 @@ def check_sig(s, acc, unknown=None, cdef=False):
         selfargs = (obj,) if s["self"] is True else ((ns["K"],) if s["self"] == "cls" else ())
         Obj = ns["Obj"]
         key0 = json.dumps(s, sort_keys=True) + "|" + str(unknown) + "|" + str(cdef)
-        for npos, kws in call_shapes(s, named):
-            pos = tuple(Obj("P{}".format(i)) for i in range(npos))
-            kw = {k: Obj("K_" + k) for k in kws}
+        shapes = [(npos, kws, False) for npos, kws in call_shapes(s, named)]
+        if cdef in (True, "kwonly_default"):
+            # the contract callables have defaults of their own: also calls whose every argument is None (a value which must not
+            # be mistaken for "not supplied")
+            shapes += [(npos, kws, True) for npos, kws in call_shapes(s, named) if npos or kws]
+        for npos, kws, none_values in shapes:
+            pos = tuple(None if none_values else Obj("P{}".format(i)) for i in range(npos))
+            kw = {k: (None if none_values else Obj("K_" + k)) for k in kws}
             try:
                 bound = ns["spy"](*(selfargs + pos), **kw)
             except TypeError:
@@ -184,7 +189,7 @@ def check_sig(s, acc, unknown=None, cdef=False):
             want_kwargs = tuple(sorted((k, id(v)) for k, v in kw.items()))
             feats = {"po": s["po"], "pk": s["pk"], "ko": s["ko"], "ndef": s["ndef"], "var": s["var"], "varkw": s["varkw"],
                      "self": s["self"], "npos": npos, "kws": ",".join(kws), "unknown": unknown, "contract_params_have_defaults": cdef,
-                     "surplus_positional": npos > s["po"] + s["pk"],
+                     "surplus_positional": npos > s["po"] + s["pk"], "none_values": none_values,
                      "kw_named_like_posonly": any(k in PO[: s["po"]] for k in kws)}
             for qtruth in (True, False):
                 ns["T"]["q"] = qtruth
@@ -195,7 +200,7 @@ def check_sig(s, acc, unknown=None, cdef=False):
                 except Exception as e:
                     exc = e
                 log = list(ns["LOG"])
-                acc.case((key0, npos, kws, qtruth), nontrivial=bool(named) or npos > 0 or bool(kws), events=len(log),
+                acc.case((key0, npos, kws, qtruth, none_values), nontrivial=bool(named) or npos > 0 or bool(kws), events=len(log),
                          outcome=(type(exc).__name__ if exc else "ret"))
                 bad = None
                 provides_unknown = unknown is not None and unknown in kw
@@ -241,7 +246,7 @@ def check_sig(s, acc, unknown=None, cdef=False):
                     acc.violation(core.Violation(
                         PROP, bad[0], feats,
                         "def f({}) called as {}: {}".format(sig_text(s)[0], callsrc, bad[1]),
-                        spec={"sig": s, "npos": npos, "kws": list(kws), "q": qtruth, "unknown": unknown, "cdef": cdef}, script=script))
+                        spec={"sig": s, "npos": npos, "kws": list(kws), "q": qtruth, "unknown": unknown, "cdef": cdef, "none_values": none_values}, script=script))
         acc.sample({"signature": "def f({})".format(sig_text(s)[0]), "unknown": unknown}, cap=2)
     finally:
         core.unload_source(ns)
